@@ -16,7 +16,7 @@ GEN_AVOID = {"unsigned_byte"}
 
 
 # operators with several distinct damaged values: that many consecutive variants are enumerated per node
-VARIANTS = {"harmless": 2, "nsrebind": 2, "base64": 4, "xsliteral": 8, "wronglist": 3, "modeltype": 3, "enum": 3, "wrongtype": 3, "forbidden": 2,
+VARIANTS = {"harmless": 3, "nsrebind": 2, "xsextreme": 6, "base64": 4, "xsliteral": 8, "wronglist": 3, "modeltype": 3, "enum": 3, "wrongtype": 3, "forbidden": 2,
             "overlong": 2}
 
 
@@ -80,7 +80,28 @@ def directed_stores():
         model.AssetInformation(model.AssetKind.INSTANCE, global_asset_id=" asset ",
                                specific_asset_id=[model.SpecificAssetId(" n ", " v ")]), "urn:verif:c09:aas")
     return [("directed.shapes", model.DictObjectStore([sm])), ("directed.whitespace", model.DictObjectStore([ws, cd, aas])),
-            ("directed.arrays", directed_arrays())]
+            ("directed.arrays", directed_arrays()), ("directed.typed", directed_typed())]
+
+
+def directed_typed():
+    """one tiny submodel with every kind of typed leaf (the xsextreme / base64 operators are run on them exhaustively)"""
+    from basyx.aas import model
+    from basyx.aas.model import datatypes as dt
+    import datetime
+    import dateutil.relativedelta
+    r = model.ModelReference((model.Key(model.KeyTypes.SUBMODEL, "urn:verif:c09:typed"),
+                              model.Key(model.KeyTypes.PROPERTY, "p")), model.Property)
+    sm = model.Submodel("urn:verif:c09:typed", id_short="typed")
+    sm.submodel_element.add(model.Property("p", dt.Int, 5, qualifier=[model.Qualifier("q", dt.Int, 7)],
+                                           extension=[model.Extension("e", dt.Int, 9)]))
+    sm.submodel_element.add(model.Range("r", dt.Int, 1, 2))
+    sm.submodel_element.add(model.Blob("b", "application/octet-stream", b"ABC"))
+    sm.submodel_element.add(model.BasicEventElement(
+        "ev", r, model.Direction.OUTPUT, model.StateOfEvent.ON,
+        last_update=datetime.datetime(2022, 11, 12, 23, 50, 23, tzinfo=datetime.timezone.utc),
+        min_interval=dateutil.relativedelta.relativedelta(seconds=1),
+        max_interval=dateutil.relativedelta.relativedelta(years=1, months=2, days=3, hours=4, minutes=5, seconds=6)))
+    return model.DictObjectStore([sm])
 
 
 def directed_arrays():
@@ -330,10 +351,10 @@ def array_position_nodes(fmt, d, nodes):
     return out
 
 
-def enumerate_cases(rng, sources, budget, per_victim_nodes=None, forced_cap=None):
+def enumerate_cases(rng, sources, budget, per_victim_nodes=None, forced_cap=None, typed_cap=None):
     """-> list of case specs (src index, victim item, witnesses, relative node path, op, variant, other id).
     All node x operator pairs are enumerated; when their number exceeds `budget` a seeded sample is drawn."""
-    specs, forced = [], []
+    specs, forced, forced_typed = [], [], []
     for si, src in enumerate(sources):
         fmt, doc, items = src["fmt"], src["doc"], src["items"]
         sizes = {it: item_size(fmt, doc, it) for it in items}
@@ -355,20 +376,26 @@ def enumerate_cases(rng, sources, budget, per_victim_nodes=None, forced_cap=None
             for path in nodes:
                 for op in appl(d, path):
                     oid = witnesses[0][2] if witnesses else None
-                    nv = 7 if (op == "harmless" and fmt == "json") else VARIANTS.get(op, 1)
+                    nv = 10 if (op == "harmless" and fmt == "json") else VARIANTS.get(op, 1)
                     base = rng.randrange(10 ** 6)
                     for v in range(nv):
                         specs.append((si, victim, tuple(witnesses), path, op, base + v, oid))
+                    if src["name"].endswith("directed.typed") and op in ("xsextreme", "base64", "xsliteral"):
+                        key = path[-1] if fmt == "json" else D._lname(D._xget(d, path))
+                        n = {"base64": 10, "xsliteral": 8}.get(op) or (
+                            len(D.XS_EXTREME[D.XS_FIXED[key]]) if key in D.XS_FIXED else len(D.XS_EXTREME_PAIRS))
+                        for v in range(n):
+                            forced_typed.append((si, victim, tuple(witnesses), path, op, v, oid))
                     if src["name"].endswith("directed.arrays") and path in array_nodes and op not in ("harmless",):
                         forced.append((si, victim, tuple(witnesses), path, op, base + 1, oid))
                     if op == "harmless" and fmt == "xml" and src.get("directed"):
                         # directed: a comment / PI inside a text value with white space at its edges, in every tier
                         el = D._xget(d, path)
                         if len(el) == 0 and el.text and el.text != el.text.strip():
-                            b13 = base - base % 13
+                            b13 = base - base % D.HARMLESS_K
                             for k in (4, 5, 6):
                                 for c in range(3):
-                                    forced.append((si, victim, tuple(witnesses), path, op, b13 + k + 13 * c, oid))
+                                    forced.append((si, victim, tuple(witnesses), path, op, b13 + k + D.HARMLESS_K * c, oid))
     total = len(specs)
     forced = list(dict.fromkeys(forced))
     if forced_cap and len(forced) > forced_cap:
@@ -392,6 +419,10 @@ def enumerate_cases(rng, sources, budget, per_victim_nodes=None, forced_cap=None
         if len(chosen) < budget:
             chosen += rng.sample(rest, min(len(rest), budget - len(chosen)))
         specs = chosen
+    forced_typed = list(dict.fromkeys(forced_typed))
+    if typed_cap and len(forced_typed) > typed_cap:
+        forced_typed = sorted(forced_typed, key=spec_hash)[:typed_cap]
+    forced = forced + forced_typed
     have = set(specs)
     specs = specs + [sp for sp in forced if sp not in have]
     return specs, total
@@ -444,9 +475,30 @@ def victim_rule(src, fmt, d, vpath, path, vid, got, base, style, data=None):
         except Exception:  # noqa
             pass
     tried = 0
+    cands = []
+    try:    # the damaged node as an empty container (all its items dropped one by one)
+        d0 = copy.deepcopy(d)
+        if fmt == "json":
+            par = D._jget(d0, path[:-1])
+            if isinstance(par[path[-1]], list):
+                par[path[-1]] = []
+                cands.append(d0)
+        else:
+            el = D._xget(d0, path)
+            if len(el) > 0:
+                for ch in list(el):
+                    el.remove(ch)
+                cands.append(d0)
+    except Exception:  # noqa
+        pass
     for L in range(len(path), len(vpath), -1):
         try:
-            data3 = serialise(fmt, delete_at(fmt, d, path[:L]))
+            cands.append(delete_at(fmt, d, path[:L]))
+        except Exception:  # noqa
+            continue
+    for d3 in cands:
+        try:
+            data3 = serialise(fmt, d3)
         except Exception:  # noqa
             continue
         tried += 1
@@ -475,7 +527,10 @@ def run_spec(sources, spec):
     d, vpath, ids = small_doc(src, victim, list(witnesses))
     ctx = case_context(d, fmt, path)
     dmg = D.json_damage if fmt == "json" else D.xml_damage
-    d2 = dmg(d, path, op, variant, oid)
+    try:
+        d2 = dmg(d, path, op, variant, oid)
+    except ValueError:      # lxml refuses a string that cannot occur in an XML document: not a well-formed input
+        return None
     if d2 is None:
         return None
     try:
@@ -513,6 +568,7 @@ def run_spec(sources, spec):
                "damaged_ids": sorted(x for x in damaged if x is not None),
                "base_canon": {i: base[i] for i in ids if i in base}, "operator": op, "path": list(path),
                "vpath": list(vpath), "victim": victim[2], "harmless": op == "harmless", "style": style,
+               "data_hex": data.hex() if isinstance(data, bytes) else None,
                "undamaged": txt(serialise(fmt, d)), "failure": fail[0],
                "logcfg": (1 + (h // 7) % 6) if fail[0] == "logging-dependent" else None,
                "how": "tools/c09.py replay(): c09_campaign.replay_case"}
@@ -523,7 +579,7 @@ def run_spec(sources, spec):
 def replay_case(rp):
     """re-runs a recorded damage case; returns (obs, failure or None)"""
     fmt, style = rp["fmt"], rp.get("style")
-    data = rp["data"] if fmt == "json" else rp["data"].encode()
+    data = bytes.fromhex(rp["data_hex"]) if rp.get("data_hex") else (rp["data"] if fmt == "json" else rp["data"].encode())
     out = {}
     obs, fail = D.oracle(fmt, data, rp["base_canon"], set(rp["damaged_ids"]), rp["all_ids"],
                          harmless=rp.get("harmless", False), style=style, out=out)
